@@ -22,9 +22,9 @@ Proof.
   intros N1 N2. cbv zeta. unfold d_add_edge. rewrite N1, N2. cbn [orb]. split; [reflexivity|].
   unfold dst_of, dok. cbn [fst]. unfold d_insert_edge, both. cbn [ts hs].
   destruct (insert_edge_get (LInt (h_uid (ts d))) tl a (with_uid (ts d) (h_uid (ts d) + 1))) as (T & T1 & T2 & T3).
-  destruct (insert_edge_get (LInt (h_uid (ts d))) hd [] (with_uid (hs d) (h_uid (hs d) + 1))) as (H & H1 & H2 & H3).
+  destruct (insert_edge_get (LInt (h_uid (ts d))) hd [] (ensure_nodes tl (with_uid (hs d) (h_uid (hs d) + 1)))) as (H & H1 & H2 & H3).
   exists T, H. split; [exact T1|]. split; [exact H1|]. split; [exact T2|]. split; [exact H2|].
-  intro e'. rewrite !ensure_nodes_edge. split; [apply T3|apply H3].
+  intro e'. rewrite ensure_nodes_edge. split; [apply T3|]. rewrite H3, ensure_nodes_edge. reflexivity.
 Qed.
 
 (* remove_edge(e) for an existing id: exactly that edge disappears from both tables *)
